@@ -168,6 +168,8 @@ type Hooks struct {
 	Modular func(fn *ssa.Function) bool
 	// OnOr is called for every OR with both operands non-constant.
 	OnOr func(in ssa.Instruction, a, b Val, overlap bool)
+	// OnStore observes every store of an integer into a scalar array element.
+	OnStore func(in ssa.Instruction, obj, idx int, v Val)
 	// MaxSteps bounds the work.
 	MaxSteps int
 }
@@ -784,6 +786,9 @@ func (it *Interp) store(addr, v AnyVal, in ssa.Instruction) {
 	case o.Kind == "arr" && p.Idx >= 0 && o.View == 0:
 		if iv, ok := v.(Val); ok && p.Idx < len(o.Vals) {
 			o.Vals[p.Idx] = iv
+			if it.H.OnStore != nil {
+				it.H.OnStore(in, p.Obj, p.Idx, iv)
+			}
 		}
 	case o.Kind == "arr" && p.Idx == -1:
 		if iv, ok := v.(Val); ok && len(o.Vals) == 1 {
